@@ -223,6 +223,36 @@ func (w *world) waitRound(n *node) *gate {
 	return g
 }
 
+// nextPeer: the responsible peer Sync must turn to after it is done with q (the first online one after q)
+func (w *world) nextPeer(p, q string) string {
+	seq := w.peerSeq[p]
+	for k, x := range seq {
+		if x == q {
+			for _, y := range seq[k+1:] {
+				if w.nodes[y].isOnline() {
+					return y
+				}
+			}
+		}
+	}
+	return ""
+}
+
+// FailureIsolated: whatever happened with q, the round goes on with the next responsible peer
+func (w *world) checkAdvance(j *judge, n *node, q, want, what string) {
+	rs := n.roundState()
+	got := ""
+	if rs.St != "idle" {
+		got = rs.Cur
+	}
+	if rs.St == "apply" || rs.St == "diff" {
+		return // still with q
+	}
+	if got != want && !j.stop {
+		j.violate("round/responsible-peer-skipped/"+what, fmt.Sprintf("node %s: after %s with peer %s the round must turn to %q, it turned to %q", n.id, what, q, want, got))
+	}
+}
+
 // roundCheck releases the type-check request. res: "fail" | "equal" | "differs"
 func (w *world) roundCheck(j *judge, p string) (res string) {
 	n := w.nodes[p]
@@ -235,8 +265,12 @@ func (w *world) roundCheck(j *judge, p string) (res string) {
 	vp, _ := n.index()
 	vq, _ := q.index()
 	calls := len(n.calls)
+	next := w.nextPeer(p, q.id)
 	n.release()
 	ng := w.waitRound(n)
+	if !on {
+		defer w.checkAdvance(j, n, q.id, next, "failed-check")
+	}
 	switch {
 	case ng.kind == "filter":
 		res = "equal"
@@ -277,6 +311,10 @@ func (w *world) roundDiff(j *judge, p string) (res string, reqs int) {
 	vp, _ := n.index()
 	vq, _ := q.index()
 	calls := len(n.calls)
+	next := w.nextPeer(p, q.id)
+	if !on {
+		defer func() { w.checkAdvance(j, n, q.id, next, "failed-diff") }()
+	}
 	for {
 		n.release()
 		ng := w.waitRound(n)
@@ -331,8 +369,10 @@ func (w *world) roundApply(j *judge, p string) (o applyObs) {
 	expExAll := minus(append(append([]string{}, exp.Rem...), exp.Chg...), n.tomb)
 	expExisting := minus(expExAll, w.special)
 	ncalls, nacl, nkv := len(n.calls), len(n.aclSyncs), len(n.kvSyncs)
+	next := w.nextPeer(p, q.id)
 	n.release()
 	w.waitRound(n)
+	w.checkAdvance(j, n, q.id, next, "apply")
 	o.Nreq = c.nreq
 	if len(n.calls) == ncalls {
 		j.violate("round/syncall-not-called", fmt.Sprintf("node %s: applyDiff for peer %s returned without handing anything to the tree syncer", p, q.id))
